@@ -88,10 +88,19 @@ def subchecks(tier):
     prof = S.Profile(ALLOWED, weights=w, numeric="mixed", max_nodes=3, max_classes=2, plans=("max_time",), require_any=("schedule", "slotted"),
                      horizon=(8.0, 24.0), budget=800, load="heavy", resumptions=(1, 2),
                      excluded=())
+    # capacitated, pre-emptive slots with services spanning several slots: interrupted customers still parked when the next slot is over capacity
+    ws = {"slotted": 1.0, "slot_capacitated": 1.0, "slot_preempt": 1.0, "priorities": 0.4, "batching": 0.5, "self_loops": 0.3, "reneging": 0.15,
+          "routing_objects": 0.2, "discipline": 0.2, "cc_after": 0.1}
+    sl = S.Profile(list(ws), weights=ws, required=("slotted", "slot_capacitated", "slot_preempt"), numeric="grid", max_nodes=2, max_classes=2,
+                   plans=("max_time",), horizon=(8.0, 20.0), budget=600, load="heavy", resumptions=(1, 1), long_service=0.6)
     return [
+        system_subcheck("slot_squeeze", sl, lambda spec: [ScheduleMonitor(spec)],
+                        lambda a, spec, res: a.get("slot_interruptions", 0) >= 2, classes=classes, obs=True, log=True,
+                        n={"quick": 3600, "thorough": 20000},
+                        rule="capacitated pre-emptive slots, heavy load, long services (several slots); non-trivial = >= 2 slot interruptions"),
         system_subcheck("system", prof, lambda spec: [ScheduleMonitor(spec)], nontrivial, classes=classes, obs=True, log=True,
                         n={"quick": 7200, "thorough": 40000}, rule="scheduled / slotted nodes vs closed-form timetable"),
-        system_subcheck("sched_blocked", common.region_profile("C12", excluded=("sched_reroute_blocked", "sched_preempt_blocked_cc", "sched_reroute_self")),
+        system_subcheck("sched_blocked", common.region_profile("C12", excluded=("sched_reroute_blocked", "sched_preempt_blocked_cc"), more_weights={"sched_reroute": 0.35}),
                         lambda spec: [ScheduleMonitor(spec)], lambda a, spec, res: a.get("interruptions", 0) >= 1 and a.get("blocked_records", 0) >= 1,
                         classes=classes, obs=True, log=True, n={"quick": 4800, "thorough": 30000},
                         rule="pre-emptive schedules x blocking region (heavy load, grid times); same timetable monitor"),
